@@ -6,6 +6,12 @@ mc.engine.progen_c15 (assign, copy, tuple pattern, comprehension, if/else,
 one-armed if, for, for-enumerate, while, with-as, return of every name, pass),
 each decorated by the real `@fp.fpy`; every accepted one is run on all 18
 steering inputs u in {-1, 1} x len(us) in {0, 1, 2} x n in {0, 1, 2}.
+Plus family E (both tiers, complete): 4 prefixes x 14 comprehensions (tuple
+targets, two generators, nested, targets shadowing arguments / their own
+iterable) x 14 shapes that read a probe name OUTSIDE the comprehension (other
+operand/argument of the same expression, arms of an `if` whose condition holds
+it, after that `if`, in/after a loop whose header holds it, element of an
+enclosing comprehension) x 4 probe names.
 
 Oracle (a), dynamic: an accepted program never fails with NameError /
 UnboundLocalError / a KeyError whose key is an identifier (missing definition,
@@ -64,9 +70,11 @@ TARGETS = {'for': ('x',), 'fore': ('i', 'x')}
 
 
 class ScopeModel:
-    def __init__(self, leaks=(), strict_join=False):
+    def __init__(self, leaks=(), strict_join=False, py_comp=False):
         self.leaks = frozenset(leaks)
         self.strict_join = strict_join   # diagnosis only: a returning arm does NOT drop out of the join
+        self.py_comp = py_comp           # diagnosis only: Python's rule that only the FIRST iterable of a
+        #                                  comprehension sees enclosing bindings its targets shadow
         self.bad = []              # (name, statement path) reachable reads of a possibly-unbound name
         self.local_reads = 0       # reachable reads of non-parameter names that follow a compound header
         self.dead = False          # some statement follows a `return` in its block (unreachable)
@@ -102,8 +110,34 @@ class ScopeModel:
             return D2, True
         return D1 & D2, l1 and l2
 
+    def expr(self, e, D, live, path):
+        """Reads of `e`, left to right.  Returns D -- extended by comprehension targets only under the
+        (dishonest) 'comp-var' leak: a comprehension variable is not accessible outside the comprehension."""
+        if e[0] == 'n':
+            self.read((e[1],), D, live, path)
+            return D
+        if e[0] == 'op':
+            for sub in e[2:]:
+                D = self.expr(sub, D, live, path)
+            return D
+        self._seen_compound = True
+        elt, gens = e[1], e[2]
+        Dc, bound = D, frozenset()
+        for j, (T, _, it) in enumerate(gens):       # generators nest: a later iterable sees earlier targets
+            Dv = Dc
+            if self.py_comp and j > 0:
+                Dv = Dc - (frozenset(n for g in gens[j:] for n in g[0]) - bound)
+            Dc = Dc | self.expr(it, Dv, live, path) | frozenset(T)
+            bound = bound | frozenset(T)
+        Dc = self.expr(elt, Dc, live, path)
+        return Dc if 'comp-var' in self.leaks else D
+
     def stmt(self, st, D, live, path):
         op = st[0]
+        if op == 'let':
+            return self.expr(st[2], D, live, path) | {st[1]}, live
+        if op == 'rete':
+            return self.expr(st[1], D, live, path), False
         if op.startswith('ret_'):
             self.read((op[4:],), D, live, path)
             return D, False
@@ -116,31 +150,32 @@ class ScopeModel:
         self._seen_compound = True
         if op == 'with':
             return self.block(st[1], D | {'c'}, live, path + (0,))
-        if op == 'ife':
-            self.read(('u',), D, live, path)
-            D1, l1 = self.block(st[1], D, live, path + (0,))
-            D2, l2 = self.block(st[2], D, live, path + (1,))
+        if op in ('ife', 'ifex'):
+            D = self.expr(('n', 'u') if op == 'ife' else st[1], D, live, path)
+            D1, l1 = self.block(st[-2], D, live, path + (0,))
+            D2, l2 = self.block(st[-1], D, live, path + (1,))
             if 'ifelse-arm' in self.leaks:
                 return D1 | D2, l1 or l2
             return self.join(D1, l1, D2, l2)
-        if op == 'if1':
-            self.read(('u',), D, live, path)
-            Db, lb = self.block(st[1], D, live, path + (0,))
+        if op in ('if1', 'if1x'):
+            D = self.expr(('n', 'u') if op == 'if1' else st[1], D, live, path)
+            Db, lb = self.block(st[-1], D, live, path + (0,))
             return (Db if lb and 'if1-body' in self.leaks else D), live
-        if op in TARGETS:
-            self.read(('us',), D, live, path)
-            T = frozenset(TARGETS[op])
-            Db, lb = self.block(st[1], D | T, live, path + (0,))
+        if op in TARGETS or op == 'forx':
+            D = self.expr(('n', 'us') if op in TARGETS else st[1], D, live, path)
+            T = frozenset(TARGETS.get(op, ('z',)))
+            Db, lb = self.block(st[-1], D | T, live, path + (0,))
             out = D                                   # the zero-trip path binds nothing
             if 'for-target' in self.leaks:
                 out = out | T
             if 'for-body' in self.leaks and lb:
                 out = out | (Db - T)
             return out, live
-        if op == 'while':
-            self.read(('k', 'n'), D, live, path)      # the condition, before the first trip
+        if op in ('while', 'whilex'):
+            # the condition, before the first trip
+            D = self.expr(('op', '', ('n', 'k'), ('n', 'n')) if op == 'while' else st[1], D, live, path)
             self.read(('k',), D, live, path + (0,))   # k = k + 1
-            Db, lb = self.block(st[1], D, live, path + (0,))
+            Db, lb = self.block(st[-1], D, live, path + (0,))
             return (Db if lb and 'while-body' in self.leaks else D), live
         raise ValueError(op)
 
@@ -201,7 +236,8 @@ class Check(BaseCheck):
     pid = 'C15'
     rule = ('every program of <= N statements over the C15 alphabet (13 simple statements, 6 compound constructs; '
             'enumeration by index over a fixed order) is decorated with the real @fp.fpy; each accepted program is '
-            'called on all 18 steering inputs. nontrivial = DISTINCT programs that contain a compound construct and a '
+            'called on all 18 steering inputs; plus the complete product family E of comprehensions used as '
+            'sub-expressions with a probe read outside them. nontrivial = DISTINCT programs that contain a compound construct and a '
             'reachable read of a non-parameter name after that construct\'s header (so that a join / zero-trip rule '
             'decided the verdict)')
     assumptions = [
@@ -216,7 +252,7 @@ class Check(BaseCheck):
 
     NSHARDS4 = 32
     NSHARDS5 = 160
-    SLICE = 32              # quick tier adds 1/SLICE of the size-5 programs, rotated by the seed
+    SLICE = 48              # quick tier adds 1/SLICE of the size-5 programs, rotated by the seed
 
     def __init__(self, tier, seed):
         super().__init__(tier, seed)
@@ -226,6 +262,7 @@ class Check(BaseCheck):
     def bounds(self):
         b = {'max_statements': self.maxsize,
              'programs_per_size': {str(n): len(self.space.programs(n)) for n in range(1, self.maxsize + 1)},
+             'family_E_comprehension_subexpressions': len(self.space.programs('E')),
              'inputs_per_accepted_program': len(INPUTS)}
         if self.tier == 'quick':
             b['extra_slice'] = (f'size-5 programs with index = {self.seed % self.SLICE} mod {self.SLICE} '
@@ -233,7 +270,7 @@ class Check(BaseCheck):
         return b
 
     def shards(self):
-        sh = [(n, 0, 1) for n in (1, 2, 3)]
+        sh = [(n, 0, 1) for n in (1, 2, 3)] + [('E', j, 4) for j in range(4)]
         sh += [(4, j, self.NSHARDS4) for j in range(self.NSHARDS4)]
         if self.tier == 'quick':
             r = self.seed % self.SLICE
@@ -333,6 +370,8 @@ class Check(BaseCheck):
             r.outcomes['model-ok/accepted/UNBOUND-AT-RUN'] += 1
             if ScopeModel(strict_join=True).run(prog).bad:
                 shape = 'bound-only-on-if-else-arm-whose-sibling-returns'
+            elif ScopeModel(py_comp=True).run(prog).bad:
+                shape = 'comprehension-later-iterable-reads-name-shadowed-by-pending-target'
             else:
                 shape = 'unexplained:' + ('+'.join(sorted(G.constructs(prog))) or 'straight-line')
             r.violate({'kind': 'runtime-unbound', 'exc': exposed, 'shape': shape},
@@ -403,6 +442,14 @@ class Check(BaseCheck):
         assert ScopeModel().run(bad1).bad and ScopeModel().run(bad2).bad
         assert blame(bad1) == 'if1-body' and blame(bad2) == 'for-target'
         assert ScopeModel().run((('pass',),)).falls_off and not ScopeModel().run(ok).falls_off
+        comp = G.COMP(G.N('x'), (('x',), 'x', G.N('us')))
+        esc = (('let', 'b', G.ADD(G.OP('sum({})', comp), G.N('x'))), ('ret_b',))
+        arm = (('ifex', G.OP('len({}) > 0', comp), (('let', 'b', G.N('x')),), (('let', 'b', G.N('u')),)), ('ret_b',))
+        fine = (('let', 'x', G.N('u')),) + esc
+        shadow = (('rete', G.OP('sum({})', G.COMP(G.N('x'), (('x',), 'x', G.N('us')), (('us',), 'us', G.N('us'))))),)
+        assert ScopeModel().run(esc).bad and ScopeModel().run(arm).bad and not ScopeModel().run(fine).bad
+        assert blame(esc) == 'comp-var' and blame(arm) == 'comp-var'
+        assert not ScopeModel().run(shadow).bad and ScopeModel(py_comp=True).run(shadow).bad
 
     # ---- replay -------------------------------------------------------------
     def replay(self, case):
